@@ -77,7 +77,7 @@ var profiles = map[string]Profile{
 	"spend-shared": {Name: "spend-shared", MaxClients: 5, MaxOps: 4, MaxGens: 1, MaxLedgers: 2, WKind: [5]int{14, 1, 1, 1, 0},
 		Tpls: []int{tplOrderedVars, tplOrderedVars, tplOrderedVars, tplVar}, WorldVarPct: 25, NoBuggify: true, BigCache: true,
 		CancelBlockedPct: 5, IKPool: 2, RefPool: 2, TargetPool: 3, FundMax: 10, AmountMax: 12},
-	"spend-faults": {Name: "spend-faults", MaxClients: 5, MaxOps: 3, MaxGens: 3, MaxLedgers: 2, WKind: [5]int{12, 3, 2, 2, 0}, ClockPct: 10,
+	"spend-faults": {Name: "spend-faults", MaxClients: 5, MaxOps: 3, MaxGens: 3, MaxLedgers: 2, WKind: [5]int{12, 3, 2, 2, 0}, ClockPct: 20,
 		Tpls:     []int{tplLit, tplVar, tplMeta, tplOrdered, tplMax, tplOverdraftBounded, tplAll, tplBalance, tplTwoSends, tplOrderedVars, tplFallbackWorld, tplFallbackOverdraft, tplFeeVars},
 		CrashPct: 60, WriteFailPct: 20, ReadFailPct: 20, CancelBlockedPct: 20, CancelPct: 5, IKPool: 2, RefPool: 2, TargetPool: 3, FundMax: 12, AmountMax: 12},
 	// C05: mixed writers, batch boundaries everywhere, restarts
@@ -90,7 +90,7 @@ var profiles = map[string]Profile{
 	// C06: all faults
 	"durability": {Name: "durability", BigIDs: true, MaxClients: 5, MaxOps: 4, MaxGens: 4, MaxLedgers: 2, WKind: [5]int{6, 3, 3, 3, 3},
 		Tpls:  []int{tplWorld, tplLit, tplVar, tplOverdraftBounded, tplAll, tplSetAccountMeta, tplMeta},
-		IKPct: 15, RefPct: 15, DryPct: 5, TSPct: 20, CrashPct: 70, WriteFailPct: 40, ReadFailPct: 40, CancelBlockedPct: 25, CancelPct: 10, ClockPct: 10,
+		IKPct: 15, RefPct: 15, DryPct: 5, TSPct: 20, CrashPct: 70, WriteFailPct: 40, ReadFailPct: 40, CancelBlockedPct: 25, CancelPct: 10, ClockPct: 30,
 		IKPool: 3, RefPool: 3, TargetPool: 4, FundMax: 20, AmountMax: 8},
 	"durability-nofault": {Name: "durability-nofault", MaxClients: 5, MaxOps: 4, MaxGens: 2, MaxLedgers: 2, WKind: [5]int{6, 3, 3, 3, 3},
 		Tpls:  []int{tplWorld, tplLit, tplVar, tplOverdraftBounded, tplAll, tplSetAccountMeta, tplMeta},
